@@ -260,7 +260,7 @@ def present(values, how, rng=None):
     """
     Present one value vector in a given way. Returns (items, valueof, names, value_map) where names is the list of
     item names in presentation order and value_map maps a name to its exact value.
-    how: list | array | dict_str | dict_int_disjoint | dict_int_overlap | names_str | names_int
+    how: list | array | array_u | array_f | dict_str | dict_int_disjoint | dict_int_overlap | dict_enum | dict_val_shift | names_str | names_int
     """
     n = len(values)
     if how == "list":
@@ -284,6 +284,18 @@ def present(values, how, rng=None):
     elif how == "dict_enum":
         # the most common way to name items: dict(enumerate(values)) - keys 0..n-1 in order (key 0 is falsy, keys coincide with positions and often with values)
         labels = list(range(n))
+    elif how == "dict_val_shift":
+        # adversarial integer names: each item is named after ANOTHER item's value (the next smaller distinct value; the smallest gets max+1); repeated
+        # values are told apart by adding multiples of 1000003. Code that confuses an item with its value sees plausible-looking numbers here.
+        distinct = sorted(set(values))
+        nxt = {v: (distinct[i - 1] if i > 0 else (distinct[-1] + 1 if distinct else 1)) for i, v in enumerate(distinct)}
+        seen_names, labels = set(), []
+        for v in values:
+            nm = nxt[v]
+            while nm in seen_names:
+                nm += 1000003
+            seen_names.add(nm)
+            labels.append(nm)
     elif how == "dict_int_overlap":
         # integer names drawn from the value range, all distinct, unrelated to the item's own value
         top = max(list(values) + [n]) + 1
